@@ -867,8 +867,20 @@ def ledger_leg(o, name, classes, mode, n, seed, max_k=120):
                       "--first-id", i * 1000000 + 1, "--out", f], timeout=3000)
         return f
     files = core.parallel(gen, list(range(shards)))
+    # one TLC state per event, each holding the live set: a ledger of tens of thousands of events (a loop that allocates
+    # without ever returning from a call) costs minutes; such records are left out and counted
+    MAX_EVENTS = 6000
+    too_long = 0
+    for f in files:
+        recs = core.read_ndjson(f)
+        keep = [r for r in recs if len(r.get("heap", [])) <= MAX_EVENTS]
+        if len(keep) != len(recs):
+            too_long += len(recs) - len(keep)
+            core.write_ndjson(f, keep)
     results = run_tv_shards(files, "NlHeapLedger.tla", "NlHeapLedger.cfg", wd, timeout=3000)
     counts = {}
+    if too_long:
+        counts["left-out-longer-than-6000-events"] = too_long
     nrec = nev = 0
     pool = []
     for f, r in zip(files, results):
